@@ -485,6 +485,61 @@ theorem C03_gone_is_NSP (o : Obj) : ∀ nm ∈ goneCovered, ∃ m, Fe.method cfg
   obtain ⟨s', hr, _⟩ := hg c {} ha (hp ▸ pgone_of_goneFromStart hgs) rfl
   rw [hr]; simp [IsNSP]
 
+/-! ### history form: a sequence of queries on the same object -/
+
+/-- run a sequence of calls one after the other, threading the state (access counter, caches); the outcomes in order -/
+def runHistory {α : Type} : List (M α) → Ctx → St → List (Except PyExc α)
+  | [], _, _ => []
+  | m :: rest, c, s => (m c s).1 :: runHistory rest c (m c s).2
+
+/-- the modelled calls for a list of method names -/
+def histOf (o : Obj) (names : List String) : List (M Val) := names.filterMap (Fe.method cfg o)
+
+/-- front-end values that a gone process still answers from the object, by documented design — NOT covered
+    by the history theorem, listed explicitly:
+    `pid` (attribute), `create_time` ("cached after first call": `_create_time`, filled at construction),
+    `exe` once it succeeded (`_exe` memo), `is_running` (answers False), `parent`/`parents` of the lowest
+    listed pid (None / [] from the cached `_LOWEST_PID`), `as_dict`/`process_iter` (policy theorems) -/
+def goneMemoExempt : List String := ["pid", "create_time", "exe (after a successful exe())", "is_running", "parent", "parents"]
+
+/-- **goneForever, history form**: whatever object (any pid / cached create time), whatever state the earlier
+    calls left (any access counter, any inactive oneshot cache), once the process is gone EVERY call of EVERY
+    sequence of covered queries — any length, any order, repetitions included — raises NoSuchProcess(pid);
+    induction over the call sequence (each call leaves the state as the next one needs it) -/
+theorem C03_gone_forever_history (o : Obj) (names : List String) (hn : ∀ nm ∈ names, nm ∈ goneCovered) :
+    (histOf o names).length = names.length ∧
+    ∀ c s, Adm c → PGone c o.pid → s.cache.active = false →
+      ∀ out ∈ runHistory (histOf o names) c s, IsNSP o.pid out := by
+  unfold histOf
+  rw [cfg_good]
+  induction names with
+  | nil => exact ⟨rfl, fun _ _ _ _ _ out h => by cases h⟩
+  | cons nm rest ih =>
+    obtain ⟨m, hm, hg⟩ := gone_all cfg.hasRollup o nm (hn nm (List.mem_cons_self ..))
+    obtain ⟨hlen, hall⟩ := ih (fun x hx => hn x (List.mem_cons_of_mem _ hx))
+    simp only [List.filterMap_cons, hm]
+    refine ⟨by simp [hlen], fun c s ha hgone hc out hout => ?_⟩
+    obtain ⟨s', hr, hc'⟩ := hg c s ha hgone hc
+    simp only [runHistory, hr, List.mem_cons] at hout
+    rcases hout with h | h
+    · subst h; simp [IsNSP]
+    · exact hall c s' ha hgone (by rw [hc']; exact hc) out h
+
+/-- the statement still open: the same with the process gone only FROM the access index at which some call
+    observed it (`∀ k ≥ k0, ws k = gone`, nothing refused from k0 on) and the object's `_gone` / `_pid_reused`
+    flags threaded through the history. `C03_gone_forever_history` is its instance k0 = 0 (with the flags
+    irrelevant: a set flag only short-cuts ppid/children/parent to the same NoSuchProcess); on the
+    implementation the harness repeats every faulted call on the same object after the process is gone -/
+def C03_gone_forever_from_Full : Prop :=
+  ∀ (o : Obj) (names : List String), (∀ nm ∈ names, nm ∈ goneCovered) →
+    ∀ c s (k0 : Nat), Adm c → (∀ k, k0 ≤ k → pst c k o.pid = .gone) → (∀ k, k0 ≤ k → c.deny k = none) →
+      k0 ≤ s.k → s.cache.active = false →
+      ∀ out ∈ runHistory (histOf o names) c s, IsNSP o.pid out
+
+/-- non-vacuity: three queries in a row on a vanished 105 -/
+example : runHistory (histOf w0.obj ["name", "ppid", "children_recursive"]) ⟨w0, vanishAt 0, noDeny⟩ {}
+    = [.error (.nsp 105), .error (.nsp 105), .error (.nsp 105)] := by decide +kernel
+
 theorem C03_gone_rlimit (o : Obj) (h0 : o.pid ≠ 0) (c : Ctx) (ha : Adm c) (hgs : GoneFromStart c)
     (hp : o.pid = c.w.target) : IsNSP o.pid (Plat.rlimit cfg o.pid c {}).1 := by
   rw [cfg_good]
